@@ -260,6 +260,9 @@ pub fn run_crash_case(case: &SqlReplay, opts: &CrashOpts) -> CrashRun {
     }
     // io fingerprint: (file, kind, off, len)
     for e in &log {
+        if std::env::var("AXSIM_IOLOG").is_ok() {
+            eprintln!("IO {} {:?} {} {} {}", e.file, e.kind, e.off, e.data.len(), e.note); // diagnostic only
+        }
         if is_mutation(e) {
             util::fnv(&mut out.fingerprint, format!("{} {:?} {} {}\n", e.file, e.kind, e.off, e.data.len()).as_bytes());
         }
